@@ -32,6 +32,7 @@ import (
 	"strconv"
 	"strings"
 	"sync"
+	"sync/atomic"
 	"syscall"
 	"time"
 
@@ -67,7 +68,8 @@ type fakeRT struct {
 	gates     map[string]chan struct{}
 	reached   map[string]chan struct{} // closed when a call starts waiting on the gate
 	attempted map[string]bool
-	multi     int // produce requests that were not exactly one topic / one partition, or whose acks / compression attribute
+	shapes    map[string]bool // "id:shape" of every record that reached the broker
+	multi     int             // produce requests that were not exactly one topic / one partition, or whose acks / compression attribute
 	// differ from the Writer's configuration (options must be passed through unchanged)
 	wantAcks  int16
 	wantAttrs int16
@@ -75,7 +77,7 @@ type fakeRT struct {
 
 func newFake() *fakeRT {
 	return &fakeRT{nparts: map[string]int{}, logs: map[tpKey][]string{}, faults: map[tpKey][]fault{},
-		metaGat: map[int]string{}, gates: map[string]chan struct{}{}, reached: map[string]chan struct{}{}, attempted: map[string]bool{}}
+		metaGat: map[int]string{}, gates: map[string]chan struct{}{}, reached: map[string]chan struct{}{}, attempted: map[string]bool{}, shapes: map[string]bool{}}
 }
 
 func (f *fakeRT) gate(name string) (g, r chan struct{}) {
@@ -170,22 +172,12 @@ func (f *fakeRT) produce(r *produce.Request) (kafka.Response, error) {
 		f.multi++
 		f.mu.Unlock()
 	}
-	var keys []string
-	rr := r.Topics[0].Partitions[0].RecordSet.Records
-	for rr != nil {
-		rec, err := rr.ReadRecord()
-		if err != nil {
-			break
-		}
-		k := ""
-		if rec.Key != nil {
-			b, _ := io.ReadAll(rec.Key)
-			k = string(b)
-		}
-		keys = append(keys, k)
-	}
+	keys, shapes := readRecs(r.Topics[0].Partitions[0].RecordSet.Records)
 	tp := tpKey{topic, part}
 	f.mu.Lock()
+	for i, k := range keys {
+		f.shapes[k+":"+shapes[i]] = true
+	}
 	var ft fault
 	if q := f.faults[tp]; len(q) > 0 {
 		ft = q[0]
@@ -269,6 +261,24 @@ type msgSpec struct {
 	topic string // message-level topic ("" = none)
 	part  int
 	hdr   bool
+	// shape: how Key and Value are given, two characters; "" = "kv".  First: k = Key holds the id, n = Key nil,
+	// e = Key empty but not nil (the id then stands at the start of Value).  Second: v = Value has bytes, n = Value nil
+	// (a tombstone), e = Value empty but not nil.
+	shape string
+}
+
+func (m msgSpec) shp() string {
+	if m.shape == "" {
+		n := m.size - 23 - len(m.key)
+		if m.hdr {
+			n -= 4
+		}
+		if n == 0 { // no room for value bytes: message() then gives an empty, non-nil Value
+			return "ke"
+		}
+		return "kv"
+	}
+	return m.shape
 }
 
 type callSpec struct {
@@ -299,6 +309,11 @@ type scenario struct {
 	jitterUs   int
 	wire       int // > 0: run over the real kafka.Transport against this many byte-level brokers
 	moves      []leaderMove
+	defBal     bool                     // Writer.Balancer left unset: the default round-robin (one goroutine: message j of the run goes to partition j mod n)
+	writeTO    time.Duration            // > 0: Writer.WriteTimeout
+	stallAt    int                      // wire: the broker stops reading in the middle of the n-th produce request to arrive (special "stallwrite")
+	linger     time.Duration            // > 0: timed run — the trace carries clock ticks and the model's linger bound (BatchTimeout + slack) applies
+	trickle    time.Duration            // > 0 (with one caller): pause between the calls of a caller
 	sinkDelay  map[string]time.Duration // event key ("PW.NewBatch", "PW.Detach:timer", "Q.Get:batch", "B.TimerFire") -> stall inside that critical section
 }
 
@@ -321,8 +336,17 @@ func (b *builder) mkMsg(size int, topic string, part int, hdr bool) msgSpec {
 }
 
 func (m msgSpec) message() kafka.Message {
-	n := m.size - 23 - len(m.key)
-	msg := kafka.Message{Key: []byte(m.key), Topic: m.topic}
+	sh := m.shp()
+	msg := kafka.Message{Topic: m.topic}
+	klen := 0
+	switch sh[0] {
+	case 'k':
+		msg.Key = []byte(m.key)
+		klen = len(m.key)
+	case 'e':
+		msg.Key = []byte{}
+	}
+	n := m.size - 23 - klen
 	if m.hdr {
 		// one header "h"="v": array len varint(1)=1 replaces the 1 byte of the empty array; + (1+1) + (1+1)
 		n -= 4
@@ -331,8 +355,81 @@ func (m msgSpec) message() kafka.Message {
 	if n < 0 {
 		panic("message spec too small")
 	}
-	msg.Value = make([]byte, n)
+	switch sh[1] {
+	case 'v':
+		msg.Value = make([]byte, n)
+		if sh[0] != 'k' { // the id travels in the value
+			if n < len(m.key)+1 {
+				panic("message spec too small for an id in the value")
+			}
+			copy(msg.Value, m.key)
+		}
+	case 'n':
+		if n != 0 || sh[0] != 'k' {
+			panic("bad spec: nil value needs size = 23 + len(key) and a key")
+		}
+	case 'e':
+		if n != 0 || sh[0] != 'k' {
+			panic("bad spec: empty value needs size = 23 + len(key) and a key")
+		}
+		msg.Value = []byte{}
+	}
 	return msg
+}
+
+// msgID recovers the id of a message / record from its key, or from the start of its value when the key is absent.
+func msgID(key, value []byte) string {
+	if len(key) > 0 {
+		return string(key)
+	}
+	for i, c := range value {
+		if c == 0 {
+			return string(value[:i])
+		}
+	}
+	return string(value)
+}
+
+// shaped gives a message spec the given shape, adjusting the size where the shape dictates it
+func (b *builder) shaped(m msgSpec, shape string) msgSpec {
+	m.shape = shape
+	m.hdr = false
+	switch {
+	case shape[1] == 'n' || shape[1] == 'e':
+		m.size = 23 + len(m.key)
+	case shape[0] != 'k' && m.size < 23+len(m.key)+1:
+		m.size = 23 + len(m.key) + 1
+	}
+	return m
+}
+
+// readRecs drains a record reader as the broker side: ids and shapes (null / empty / present key and value) of the records
+func readRecs(rr kafka.RecordReader) (ids, shapes []string) {
+	for rr != nil {
+		rec, err := rr.ReadRecord()
+		if err != nil {
+			break
+		}
+		var k, v []byte
+		sh := []byte("nn")
+		if rec.Key != nil {
+			k, _ = io.ReadAll(rec.Key)
+			sh[0] = 'e'
+			if len(k) > 0 {
+				sh[0] = 'k'
+			}
+		}
+		if rec.Value != nil {
+			v, _ = io.ReadAll(rec.Value)
+			sh[1] = 'e'
+			if len(v) > 0 {
+				sh[1] = 'v'
+			}
+		}
+		ids = append(ids, msgID(k, v))
+		shapes = append(shapes, string(sh))
+	}
+	return
 }
 
 func (b *builder) random(idx int, thorough bool) *scenario {
@@ -417,7 +514,23 @@ func (b *builder) random(idx int, thorough bool) *scenario {
 					}
 				}
 				part := r.Intn(sc.nparts[tname])
-				cs.msgs = append(cs.msgs, b.mkMsg(size, topic, part, r.Intn(12) == 0))
+				ms := b.mkMsg(size, topic, part, r.Intn(12) == 0)
+				if int64(size) <= sc.bb { // (an oversize message keeps its size)
+					switch x := r.Intn(40); {
+					case x < 4:
+						ms = b.shaped(ms, "kn") // tombstone
+					case x < 6:
+						ms = b.shaped(ms, "ke")
+					case x < 8:
+						ms = b.shaped(ms, "nv")
+					case x < 9:
+						ms = b.shaped(ms, "ev")
+					}
+					if int64(ms.size) > sc.bb {
+						ms.shape, ms.size = "", size
+					}
+				}
+				cs.msgs = append(cs.msgs, ms)
 			}
 			if !sc.async && r.Intn(25) == 0 {
 				cs.cancel = true
@@ -528,6 +641,160 @@ func (b *builder) ctxHold(i int) *scenario {
 	first := []fault{{kind: "ok"}, {kind: "lostack", code: 1}, {kind: "kerr", code: 6}, {kind: "kerr", code: 10}, {kind: "drop", code: 2}, {kind: "lostack", code: 0}}[i%6]
 	first.gate = "p1"
 	sc.faults[tpKey{"t", 0}] = []fault{first, {kind: "ok"}, {kind: "ok"}}
+	return sc
+}
+
+// defaults: BatchSize, BatchBytes and MaxAttempts left unset (0): the limits are the documented defaults 100 /
+// 1048576 / 10.  A message larger than 1 MiB must be rejected up front (nothing of its call is sent), a message of
+// exactly 1 MiB goes out alone, two messages of 0.6 MiB go out in two requests, 101 small messages in 100 + 1, and
+// the tenth attempt of a batch still happens after nine retriable failures.
+func (b *builder) defaults(i int) *scenario {
+	r := b.r
+	sc := &scenario{name: "defaults" + strconv.Itoa(i), bs: 0, bb: 0, ma: 0, async: i%3 == 2, compl: i%2 == 0, wtopic: "t",
+		timeout: 2 * time.Millisecond, nparts: map[string]int{"t": 1 + i%2}, faults: map[tpKey][]fault{}, closeAt: -1}
+	const mib = 1048576
+	var calls []callSpec
+	add := func(ms ...msgSpec) {
+		b.nextC++
+		calls = append(calls, callSpec{id: b.nextC, msgs: ms})
+	}
+	switch i % 4 {
+	case 0: // oversize in the middle of a call
+		add(b.mkMsg(50, "", 0, false), b.mkMsg(mib+1+r.Intn(5000), "", 0, false), b.mkMsg(50, "", 0, false))
+		add(b.mkMsg(60, "", 0, false))
+	case 1: // exactly the limit, then two that do not fit together
+		add(b.mkMsg(mib, "", 0, false))
+		add(b.mkMsg(600000, "", 0, false), b.mkMsg(600000, "", 0, false), b.mkMsg(40, "", 0, false))
+	case 2: // default BatchSize: 100 + 1
+		var ms []msgSpec
+		for k := 0; k < 101+r.Intn(30); k++ {
+			ms = append(ms, b.mkMsg(40+r.Intn(4), "", 0, false))
+		}
+		add(ms...)
+		add(b.mkMsg(mib+1, "", 0, false))
+	case 3: // default MaxAttempts: nine retriable failures, the tenth attempt succeeds; then ten failures
+		add(b.mkMsg(45, "", 0, false))
+		add(b.mkMsg(45, "", 0, false))
+		var script []fault
+		for k := 0; k < 9; k++ {
+			script = append(script, fault{kind: "kerr", code: temporaryCodes[r.Intn(len(temporaryCodes))]})
+		}
+		script = append(script, fault{kind: "ok"})
+		for k := 0; k < 10; k++ {
+			script = append(script, fault{kind: "kerr", code: 6})
+		}
+		script = append(script, fault{kind: "ok"})
+		sc.faults[tpKey{"t", 0}] = script
+	}
+	sc.callers = [][]callSpec{calls}
+	return sc
+}
+
+// trickle: one goroutine keeps appending single messages to one partition at intervals well below BatchTimeout, for
+// many BatchTimeouts, with a BatchSize that is never reached: every batch must be closed BatchTimeout after it was
+// OPENED although messages keep arriving.  Timed run: the trace carries the clock, and the model forbids the clock to
+// pass openedAt + BatchTimeout + slack while the batch is still attached.
+func (b *builder) trickleFamily(i int) *scenario {
+	r := b.r
+	timeout := time.Duration(8+4*(i%3)) * time.Millisecond
+	sc := &scenario{name: "trickle" + strconv.Itoa(i), bs: 1000, bb: 1 << 20, ma: 2, async: i%2 == 0, compl: i%3 == 0, wtopic: "t",
+		timeout: timeout, nparts: map[string]int{"t": 1}, faults: map[tpKey][]fault{}, closeAt: -1,
+		linger: timeout + lingerSlack, trickle: timeout / 5}
+	var calls []callSpec
+	n := int(4 * (lingerSlack + timeout) / sc.trickle) // wall time of the trickle: 4 × linger, i.e. ≥ 2 × linger on the logical clock
+	for k := 0; k < n; k++ {
+		b.nextC++
+		calls = append(calls, callSpec{id: b.nextC, msgs: []msgSpec{b.mkMsg(40+r.Intn(8), "", 0, false)}})
+	}
+	sc.callers = [][]callSpec{calls}
+	if !sc.async {
+		// synchronous callers wait for their batch: several of them keep the trickle going
+		sc.callers = nil
+		for c := 0; c < 6; c++ {
+			var cs []callSpec
+			for k := c; k < n; k += 6 {
+				cs = append(cs, calls[k])
+			}
+			sc.callers = append(sc.callers, cs)
+		}
+	}
+	return sc
+}
+
+// lingerSlack: how late after BatchTimeout the timer goroutine may get to close the batch (scheduling, the partition
+// mutex) before the run counts it as "not closed BatchTimeout after it was opened"
+const lingerSlack = 60 * time.Millisecond
+
+// tombstones: batches in which a message with a nil Value (a tombstone) or a nil Key follows one that has both, and
+// the other way round; also empty-but-not-nil keys and values.  What reaches the broker must be the message as given:
+// null stays null, empty stays empty.  Odd scenarios run over the real Transport (the bytes on the wire).
+func (b *builder) tombstones(i int) *scenario {
+	r := b.r
+	sc := &scenario{name: "tomb" + strconv.Itoa(i), bs: 4 + r.Intn(5), bb: 1 << 20, ma: 2, async: i%3 == 2, compl: i%2 == 0, wtopic: "t",
+		timeout: 2 * time.Millisecond, nparts: map[string]int{"t": 1 + i%2}, faults: map[tpKey][]fault{}, closeAt: -1}
+	if i%2 == 1 {
+		sc.wire, sc.jitter, sc.jitterUs, sc.ma = 2, true, 300, 4
+	}
+	shapes := []string{"kv", "kn", "kv", "nv", "ke", "kn", "ev", "kv", "kn", "nv"}
+	var calls []callSpec
+	for c := 0; c < 2+r.Intn(2); c++ {
+		b.nextC++
+		cs := callSpec{id: b.nextC}
+		n := 4 + r.Intn(6)
+		off := r.Intn(len(shapes))
+		for k := 0; k < n; k++ {
+			cs.msgs = append(cs.msgs, b.shaped(b.mkMsg(40+r.Intn(10), "", r.Intn(sc.nparts["t"]), false), shapes[(off+k)%len(shapes)]))
+		}
+		calls = append(calls, cs)
+	}
+	sc.callers = [][]callSpec{calls}
+	if i%4 >= 2 {
+		sc.faults[tpKey{"t", 0}] = []fault{{kind: "lostack", code: 1}, {kind: "ok"}}
+	}
+	return sc
+}
+
+// stallWrite: over the real Transport; the broker stops reading in the middle of one produce request for longer than
+// WriteTimeout.  The attempt must be cut off at the socket: the Writer retries on a fresh connection and goes on with the
+// next batches, and when the stalled connection is drained again nothing more may arrive on it — otherwise a stale copy
+// of the earlier batch is appended after later ones.
+func (b *builder) stallWrite(i int) *scenario {
+	r := b.r
+	sc := &scenario{name: "stallw" + strconv.Itoa(i), bs: 1 + i%2, bb: 1 << 20, ma: 4, async: false, compl: i%2 == 0, wtopic: "t",
+		timeout: 2 * time.Millisecond, nparts: map[string]int{"t": 1}, faults: map[tpKey][]fault{}, closeAt: -1,
+		wire: 1 + i%2, special: "stallwrite", stallAt: 1 + i%3, writeTO: time.Duration(25+5*(i%3)) * time.Millisecond}
+	var calls []callSpec
+	for j := 0; j < 3+r.Intn(3); j++ {
+		b.nextC++
+		cs := callSpec{id: b.nextC}
+		for k := 0; k < sc.bs; k++ {
+			cs.msgs = append(cs.msgs, b.mkMsg(60+r.Intn(200), "", 0, false))
+		}
+		calls = append(calls, cs)
+	}
+	sc.callers = [][]callSpec{calls}
+	return sc
+}
+
+// defaultBalancer: Writer.Balancer left unset.  One goroutine writes synchronously, so the default round-robin balancer
+// sends the j-th message of the run to partition j mod n; the declared partitions say so.
+func (b *builder) defaultBalancer(i int) *scenario {
+	r := b.r
+	n := 2 + i%3
+	sc := &scenario{name: "defbal" + strconv.Itoa(i), bs: 1 + r.Intn(3), bb: 1 << 20, ma: 2, async: false, compl: i%2 == 0, wtopic: "t",
+		timeout: 2 * time.Millisecond, nparts: map[string]int{"t": n}, faults: map[tpKey][]fault{}, closeAt: -1, defBal: true}
+	var calls []callSpec
+	j := 0
+	for c := 0; c < 3+r.Intn(3); c++ {
+		b.nextC++
+		cs := callSpec{id: b.nextC}
+		for k := 0; k < 1+r.Intn(4); k++ {
+			cs.msgs = append(cs.msgs, b.mkMsg(40+r.Intn(20), "", j%n, false))
+			j++
+		}
+		calls = append(calls, cs)
+	}
+	sc.callers = [][]callSpec{calls}
 	return sc
 }
 
@@ -752,14 +1019,18 @@ func run(sc *scenario, out *bufio.Writer) {
 	}
 	var cbmu sync.Mutex
 	var cbs []string
+	var where []string
 	w := &kafka.Writer{
 		Addr: kafka.TCP("fake:9092"), Topic: sc.wtopic, Transport: f,
 		Balancer: kafka.BalancerFunc(func(m kafka.Message, parts ...int) int {
-			return parts[partOf[string(m.Key)]%len(parts)]
+			return parts[partOf[msgID(m.Key, m.Value)]%len(parts)]
 		}),
 		BatchSize: sc.bs, BatchBytes: sc.bb, BatchTimeout: sc.timeout, MaxAttempts: sc.ma,
 		WriteBackoffMin: 200 * time.Microsecond, WriteBackoffMax: time.Millisecond,
 		RequiredAcks: kafka.RequireOne, Async: sc.async,
+	}
+	if sc.defBal {
+		w.Balancer = nil
 	}
 	// non-default options that must reach the broker unchanged: acks (One / All; None is outside C01) and the codec
 	opt := len(sc.name)*7 + sc.bs + sc.ma + int(sc.bb%11)
@@ -774,6 +1045,10 @@ func run(sc *scenario, out *bufio.Writer) {
 		tr := &kafka.Transport{Dial: wc.Dial, MetadataTTL: 2 * time.Millisecond, IdleTimeout: time.Second, DialTimeout: time.Second}
 		w.Transport, w.Addr = tr, wc.bootAddr()
 		w.WriteBackoffMin, w.WriteBackoffMax = 2*time.Millisecond, 6*time.Millisecond
+		wc.stallAt = sc.stallAt
+		if sc.writeTO > 0 {
+			w.WriteTimeout = sc.writeTO
+		}
 		defer func() {
 			tr.CloseIdleConnections()
 			wc.close()
@@ -786,7 +1061,10 @@ func run(sc *scenario, out *bufio.Writer) {
 		w.Completion = func(msgs []kafka.Message, err error) {
 			cbmu.Lock()
 			for _, m := range msgs {
-				cbs = append(cbs, string(m.Key)+" "+kafka.VerifErrCode(err))
+				cbs = append(cbs, msgID(m.Key, m.Value)+" "+kafka.VerifErrCode(err))
+				if err == nil { // where the Writer says the message is: Topic / Partition / Offset as handed to Completion
+					where = append(where, fmt.Sprintf("%s:%s/%d@%d", msgID(m.Key, m.Value), m.Topic, m.Partition, m.Offset))
+				}
 			}
 			cbmu.Unlock()
 		}
@@ -800,8 +1078,35 @@ func run(sc *scenario, out *bufio.Writer) {
 	var dumpMu sync.Mutex
 	var dump func(why string) // set below, once the calls exist
 	completed := map[string]bool{}
+	// timed runs: recorder sequence number of a PW.NewBatch / PW.Add / B.TimerFire event -> reading of the run's clock.
+	// The clock is a LOGICAL one: a goroutine of this process adds 500 (µs) after every time.Sleep(500µs) it completes.
+	// Without load it runs at or somewhat below real time; when the process is starved (other checks running on the
+	// machine) it slows down together with the library's timer goroutines, so "BatchTimeout + slack on this clock" is
+	// a bound the scheduler cannot break by merely being slow.
+	tickAt := map[int]int64{}
+	var lclock int64
+	if sc.linger > 0 {
+		stopClock := make(chan struct{})
+		defer close(stopClock)
+		go func() {
+			for {
+				select {
+				case <-stopClock:
+					return
+				default:
+				}
+				time.Sleep(500 * time.Microsecond)
+				atomic.AddInt64(&lclock, 500)
+			}
+		}()
+	}
 	kafka.VerifSetSink(func(e kafka.VerifEvent) {
 		now := time.Now()
+		if sc.linger > 0 && (e.Kind == "PW.NewBatch" || e.Kind == "PW.Add" || e.Kind == "B.TimerFire") {
+			tmu.Lock()
+			tickAt[e.Seq] = atomic.LoadInt64(&lclock)
+			tmu.Unlock()
+		}
 		switch e.Kind {
 		case "W.Batch", "W.NewPW", "PW.Add":
 			// events of the batchMessages critical section: emitted by the goroutine that holds w.mutex, so the time
@@ -901,7 +1206,7 @@ func run(sc *scenario, out *bufio.Writer) {
 		if wt == "" {
 			wt = "-"
 		}
-		fmt.Fprintf(&sb, "wtrace %s %d %d %d %d %d %s | ", sc.name, sc.bs, sc.bb, sc.ma, b2i(sc.async), b2i(sc.compl), wt)
+		fmt.Fprintf(&sb, "wtrace %s %d %d %d %d %d %s %d | ", sc.name, sc.bs, sc.bb, sc.ma, b2i(sc.async), b2i(sc.compl), wt, sc.linger.Microseconds())
 		first := true
 		for ci := range live {
 			for si, lc := range live[ci] {
@@ -919,11 +1224,16 @@ func run(sc *scenario, out *bufio.Writer) {
 						t = "-"
 					}
 					fmt.Fprintf(&sb, "%s:%d:%s:%d", m.key, m.size, t, m.part)
+					if m.shp() != "kv" {
+						sb.WriteString(":" + m.shp())
+					}
 				}
 			}
 		}
 		sb.WriteString(" | ")
-		sb.WriteString(renderEvents(evs))
+		tmu.Lock()
+		sb.WriteString(renderEvents(evs, tickAt))
+		tmu.Unlock()
 		sb.WriteString("\t")
 		sort.Slice(results, func(i, j int) bool { return results[i].call < results[j].call })
 		sb.WriteString("ret ")
@@ -967,6 +1277,24 @@ func run(sc *scenario, out *bufio.Writer) {
 		early := earlyTimers
 		tmu.Unlock()
 		fmt.Fprintf(&sb, " | unsent %d | multi %d | stuck %d | stats %s | early %d", unsent, f.multi, b2i(stuck), stats, early)
+		// how key and value of every record arrived at the broker (null / empty / bytes), all attempts
+		var shp []string
+		for k := range f.shapes {
+			shp = append(shp, k)
+		}
+		sort.Strings(shp)
+		if len(shp) == 0 {
+			shp = []string{"-"}
+		}
+		sb.WriteString(" | shapes " + strings.Join(shp, ";"))
+		cbmu.Lock()
+		wh := append([]string(nil), where...)
+		cbmu.Unlock()
+		sort.Strings(wh)
+		if len(wh) == 0 {
+			wh = []string{"-"}
+		}
+		sb.WriteString(" | where " + strings.Join(wh, ";"))
 		out.WriteString(sb.String())
 		out.WriteString("\n")
 		out.Flush()
@@ -990,7 +1318,14 @@ func run(sc *scenario, out *bufio.Writer) {
 					panic("empty WriteMessages returned " + err.Error())
 				}
 			}
-			for _, lc := range live[ci] {
+			for k, lc := range live[ci] {
+				if sc.trickle > 0 {
+					if k == 0 {
+						time.Sleep(time.Duration(ci) * sc.trickle)
+					} else {
+						time.Sleep(sc.trickle * time.Duration(len(live)))
+					}
+				}
 				if sc.jitter && jr.Intn(2) == 0 {
 					time.Sleep(time.Duration(jr.Intn(sc.jitterMaxUs())) * time.Microsecond)
 				}
@@ -1036,6 +1371,19 @@ func run(sc *scenario, out *bufio.Writer) {
 		waitTimeout(&wg, 6*time.Second) // all later (async) calls are queued behind the held batch
 		time.Sleep(2 * sc.timeout)
 		f.open("p1")
+	case sc.special == "stallwrite":
+		// the broker stops reading in the middle of a produce request; the Writer gives the attempt up at WriteTimeout,
+		// retries on another connection and goes on; only then does the stalled connection get drained again
+		select {
+		case <-wc.stalled:
+		case <-time.After(3 * time.Second):
+		}
+		waitTimeout(&wg, 6*time.Second)
+		close(wc.stallGate)
+		select {
+		case <-wc.stallDone:
+		case <-time.After(2 * time.Second):
+		}
 	case sc.special == "ctxhold":
 		f.waitReached("p1") // the first batch of the call to be cancelled is at the broker (held)
 		waitEventArg("W.Return", 1, "ctx", 2*time.Second)
@@ -1273,7 +1621,7 @@ func waitEvent(kind string, max time.Duration) bool {
 
 // renderEvents renames the recorder's object ids per kind to creation order (a freed object's address may be
 // reused by a later one: ids are bound at the creating event) and joins the events with ';'.
-func renderEvents(evs []kafka.VerifEvent) string {
+func renderEvents(evs []kafka.VerifEvent, tickAt map[int]int64) string {
 	pw, q, bt := map[string]string{}, map[string]string{}, map[string]string{}
 	ren := func(m map[string]string, pre, raw string, create bool) string {
 		if raw == "nil" {
@@ -1295,6 +1643,9 @@ func renderEvents(evs []kafka.VerifEvent) string {
 		if !(strings.HasPrefix(e.Kind, "W.") || strings.HasPrefix(e.Kind, "PW.") || strings.HasPrefix(e.Kind, "Q.") ||
 			strings.HasPrefix(e.Kind, "B.") || strings.HasPrefix(e.Kind, "Br.")) {
 			continue
+		}
+		if t, ok := tickAt[e.Seq]; ok {
+			parts = append(parts, "T.Tick "+strconv.FormatInt(t, 10))
 		}
 		a := append([]string(nil), e.Args...)
 		switch e.Kind {
@@ -1365,6 +1716,21 @@ func main() {
 	}
 	for i := 0; i < 12*extra && failedScenarios < 3; i++ {
 		run(b.ctxHold(i), out)
+	}
+	for i := 0; i < 8*extra && failedScenarios < 3; i++ {
+		run(b.defaults(i), out)
+	}
+	for i := 0; i < 8*extra && failedScenarios < 3; i++ {
+		run(b.tombstones(i), out)
+	}
+	for i := 0; i < 3+extra && failedScenarios < 3; i++ {
+		run(b.stallWrite(i), out)
+	}
+	for i := 0; i < 6*extra && failedScenarios < 3; i++ {
+		run(b.defaultBalancer(i), out)
+	}
+	for i := 0; i < 3+extra && failedScenarios < 3; i++ {
+		run(b.trickleFamily(i), out)
 	}
 	for i := 0; i < n && failedScenarios < 3; i++ {
 		run(b.random(i, thorough), out)
